@@ -175,10 +175,10 @@ MEM_THEOREMS = ["EaselModel.Props.C05." + t for t in (
 MEM_LEVEL_TEXT = ("esl_mem.c helpers (round 4): esl_mem_strtoi32/64/strtoi satisfy Mem.StrtoiSpec for every byte string and base (EINVAL/EFORMAT/ERANGE/OK each by an iff on an "
                   "independent parse, nc and val in every case, no fault: no out-of-bounds read, no signed overflow); esl_memspn/memcspn = longest prefix in/not in the C-string set; "
                   "esl_memtok = takeWhile/dropWhile cut (EOL iff only delimiters; pieces concatenate to the input; *p/*n as left by the code); esl_memstrcmp/strpfx/strcontains (+_case) = "
-                  "equality/prefix/infix with the C string incl. the NULL conventions; esl_memstrdup/strcpy = bytes + NUL; esl_mem_IsReal = Mem.isRealSpec (what the code accepts: it passes over garbage bytes) and never faults. "
+                  "equality/prefix/infix with the C string incl. the NULL conventions; esl_memstrdup/strcpy = bytes + NUL; esl_mem_IsReal (since fix 8112354, model Mem.memIsRealL) = Mem.isRealSpecL: a number must start right after the blanks and one sign (memIsRealL_spec, memIsRealL_sound), never faults; memIsReal_spec is the regression theorem about the function before the fix. "
                   "Model tied to the working tree by ~5000 exact stateless ops per run on exactly sized blocks (ASan+UBSan), python oracle of the specification as monitor.")
 MEM_ASSUMPTIONS = ["esl_mem.c: `int` is 32 bits (esl_mem_strtoi is checked against the int32 model); line lengths < 2^31 (nc is an int); <ctype.h> in the C locale (glibc tables, bytes >= 0x80 in no class); "
-                   "esl_mem_strtof/esl_memtod/esl_memtof (floating point) are not modelled; esl_mem_IsReal is specified as what the code accepts (Mem.isRealSpec), which is weaker than its header: garbage bytes such as \"1x\", \"abc1\" pass (reported as a candidate defect)"]
+                   "esl_mem_strtof/esl_memtod/esl_memtof (floating point) are not modelled; esl_mem_IsReal (repaired, 8112354) is specified as isRealSpecL: sound for its header (whatever it accepts starts with a number that atof() converts) but deliberately tolerant of bytes attached to the END of the number (\"1x\", Pfam's \"25.00;\"), and it refuses inf/nan and \"10.0 foo\", which atof() converts"]
 MEM_TRUSTED = ["hand model EaselModel/Buffer/Mem.lean of the esl_mem.c helpers, tied by exact differential run of stateless ops (h_buffer.c: mem_op, exactly sized malloc blocks, ASan+UBSan)",
                "python re-statement of the strtoi/memspn/memtok/memstr* specifications used by the monitor (props/c05.py: mem_spec)"]
 MEM_WS = b" \t\n\v\f\r"
@@ -399,42 +399,14 @@ def mem_cases(rng, quick):
 
 
 K_ISREAL = "C05:mem:isreal-accepts-garbage"
-MEM_STATE = {"isreal_strict": False, "isreal_start": False}
+MEM_STATE = {"isreal_strict": False, "isreal_start": True}
 
 
 def mem_generated(ctx):
-    """EaselModel/Buffer/MemConsts.lean from esl_mem.c of the working tree: does esl_mem_IsReal reject garbage bytes (the proposed repair) or
-    step over them (the code as it is)? The executable model, the python oracle and the known-finding witness follow the tree."""
-    import os, re
-    src = open(os.path.join(ctx.src, "esl_mem.c")).read()
-    m = re.search(r"\nesl_mem_IsReal\(const char \*p, esl_pos_t n\)\n\{(.*?)\n\}\n", src, re.S)
-    if not m or "isspace((int) (*p))) break;" not in m.group(1):
-        raise RuntimeError("esl_mem_IsReal: the scan loop is not of the modelled shape (props/c05.py: mem_generated)")
-    body = m.group(1)
-    tail = body[body.index("isspace((int) (*p))) break;"):]
-    strict = re.search(r"\belse\s+return\s+FALSE\s*;", tail.split("p++;")[0]) is not None
-    if strict and "p[-1]" not in tail.split("p++;")[0]:
-        raise RuntimeError("esl_mem_IsReal was repaired in a way the model does not know (no exponent-sign branch): update Mem.realLoopS")
-    MEM_STATE["isreal_strict"] = strict
-    # round 6 repair (C05-mem-isreal-garbage.patch): one statement between the sign and the loop, `if (! n || ! (isdigit(*p) || (*p == '.' && n > 1 && isdigit(p[1])))) return FALSE;`
-    head = body[:body.index("while (n)\n")] if "while (n)\n" in body else ""
-    head = re.sub(r"/\*.*?\*/", "", head, flags=re.S)
-    start = re.search(r"if\s*\(\s*!\s*n\s*\|\|\s*!\s*\(\s*isdigit\(\(int\)\s*\*p\)\s*\|\|\s*\(\s*\*p\s*==\s*'\.'\s*&&\s*n\s*>\s*1\s*&&\s*isdigit\(\(int\)\s*p\[1\]\)\s*\)\s*\)\s*\)\s*return\s+FALSE\s*;", head) is not None
-    MEM_STATE["isreal_start"] = start
-    txt = """/-! GENERATED by props/c05.py `mem_generated` from esl_mem.c of the working tree — do not edit. -/
-namespace EaselModel.Buffer.Mem.MemConsts
-
-/-- `esl_mem_IsReal`'s scan loop ends in `else return FALSE` (true: garbage bytes are rejected, the repaired code) or steps over
-    every byte that is no digit, '.', 'e', 'E' or blank (false: the code as it is; known finding C05:mem:isreal-accepts-garbage) -/
-def isRealStrict : Bool := %s
-
-/-- `esl_mem_IsReal` tests that the number starts right after the blanks and the sign (fix C05-mem-isreal-garbage, round 6; model
-    `Mem.memIsRealL`, MemRealStart.lean) -/
-def isRealStart : Bool := %s
-
-end EaselModel.Buffer.Mem.MemConsts
-""" % ("true" if strict else "false", "true" if start else "false")
-    return {"EaselModel/Buffer/MemConsts.lean": txt}
+    """Until round 6 the model of esl_mem_IsReal followed the working tree (regenerated MemConsts.lean). Since fix 8112354 the repaired function IS the
+    model (MemConsts.lean is a fixed file: isRealStart = true): a tree without the start test diverges from it on 'abc1', '--1', 'e5' (corpus case
+    reg-isreal-garbage and the generated numeric texts with leading garbage) and is reported with that input."""
+    return {}
 
 
 def mem_isreal_documented(b):
@@ -798,35 +770,15 @@ def _open_cases(prop, rng, quick, ctx=None):
 
 
 # round 6: does buffer_refill() keep handed-out pointers alive under a stable anchor (fix C05-stable-anchor-keep-oldmem)?
-BUF_STATE = {"retire": False}
+BUF_STATE = {"retire": True}
 
 
 def buf_generated(ctx):
-    """EaselModel/Buffer/BufConsts.lean from esl_buffer.c/.h of the working tree: the repaired buffer_refill (never shift under bf->stable, retire the
-    old block instead of ESL_REALLOC) or the code before it. The executable model, the harness (open ... retire=1) and the theorems follow the tree."""
-    import os, re
-    c = re.sub(r"/\*.*?\*/", "", open(os.path.join(ctx.src, "esl_buffer.c")).read(), flags=re.S)
-    h = re.sub(r"/\*.*?\*/", "", open(os.path.join(ctx.src, "esl_buffer.h")).read(), flags=re.S)
-    m = re.search(r"\nbuffer_refill\(ESL_BUFFER \*bf, esl_pos_t nmin\)\n\{(.*?)\n\}\n", c, re.S)
-    if not m: raise RuntimeError("buffer_refill: not found in the modelled shape (props/c05.py: buf_generated)")
-    body = m.group(1)
-    marks = [re.search(r"\bstable\s*;", h) is not None, re.search(r"\*\*\s*retired\s*;", h) is not None,
-             re.search(r"bf->pos\s*>\s*0\s*&&\s*!\s*bf->stable", body) is not None,
-             re.search(r"ESL_MAX\(\s*bf->n\s*\+\s*bf->pagesize\s*,\s*2\s*\*\s*bf->balloc\s*\)", body) is not None,
-             re.search(r"bf->retired\[bf->nretired\+\+\]\s*=\s*bf->mem", body) is not None]
-    if any(marks) and not all(marks):
-        raise RuntimeError("buffer_refill / ESL_BUFFER: a stable-anchor repair of a shape the model does not know (marks %s): update Model.lean shiftLeft/growR" % marks)
-    BUF_STATE["retire"] = all(marks)
-    txt = """/-! GENERATED by props/c05.py `buf_generated` from esl_buffer.c / esl_buffer.h of the working tree — do not edit. -/
-namespace EaselModel.Buffer.BufConsts
-
-/-- `buffer_refill` under a stable anchor never shifts the window and retires the old block instead of `ESL_REALLOC`ing it
-    (fix C05-stable-anchor-keep-oldmem: fields `stable`, `retired`, `nretired` of ESL_BUFFER): true = the repaired code -/
-def stableRetire : Bool := %s
-
-end EaselModel.Buffer.BufConsts
-""" % ("true" if all(marks) else "false")
-    return {"EaselModel/Buffer/BufConsts.lean": txt}
+    """Until fix 188d0b6 landed the model of buffer_refill followed the working tree (regenerated BufConsts.lean). Now the repaired code IS the model
+    (BufConsts.lean is a fixed file: stableRetire = true, and Props/C05.lean proves `stable_repair_in_model` from it): on a tree where buffer_refill
+    moves or frees the window under a stable anchor the harness, which re-reads every pointer handed out after every operation (open ... retire=1),
+    dies under ASan or reports stale bytes - a concrete failing history."""
+    return {}
 
 
 class C05(Prop):
@@ -838,7 +790,7 @@ class C05(Prop):
         "open_wf", "refill_wf", "refill_guarantee", "getLine_refines", "fetchLine_refines", "read_refines",
         "getToken_refines", "fetchToken_refines", "lines_partition", "getLine_keeps_anchor", "countline_pagesize_independent",
         "history_spec", "history_mode_independent", "history_no_fault", "reread_under_anchor", "step_simulates", "get_prefix", "readLines_eq_specLines", "get_all_in_memory", "stable_ptr_valid_quiet", "open_quiet",
-        "stable_ptr_valid", "stable_growth_bounded", "stable_ptr_valid_step", "stable_ptr_valid_history", "stable_anchor_establishes", "stable_ptr_valid_partial", "stable_ptr_valid_fails_at",
+        "stable_repair_in_model", "stable_ptr_valid", "stable_growth_bounded", "refill_without_flag", "stable_ptr_valid_step", "stable_ptr_valid_history", "stable_anchor_establishes", "stable_ptr_valid_partial", "stable_ptr_valid_fails_at",
         # round 3: the API contract discharged
         "step_total", "history_total", "history_total_no_fault", "history_total_no_set", "error_only_outside_contract", "contract_implies_callerOk", "callerOk_decidable", "spec_bracket", "history_memory_exact", "history_memory_mode_independent",
         "unsafe_set_beyond_window", "fixed_setoffset_beyond_end_in_memory", "fixed_anchor_ahead_of_cursor", "fixed_rewind_before_anchor",
